@@ -49,8 +49,9 @@ CHECKS = {
         technique='bounded-context-switch sequentialisation of the real code (ir2c --thread) + CBMC; native CBMC threads with --mm sc/tso for the spin locks', design_ref='DESIGN.md §3 C01, §7.1'),
     'C02': dict(
         text='photon semaphore on the kernel contract K (real wait_interruptible / signal / try_resume / try_subtract inlined): 1 waiter (demand 1..2, timeout never/finite/expired), 1 signaller (0..2 tokens), '
-             'initial count 0..2, in-order and out-of-order mode: tokens conserved at quiescence, a failed wait takes nothing, and in every stuck end state the blocked head waiter is not covered by the count (no lost wake-up).',
-        note='Only the 2-thread scenarios fit the memory budget on Layer B (9-10 GB, 4-6 min each); interrupter / two-waiter scenarios ran out of memory at 16-20 GB and are not claimed.  signal() from a plain OS thread and '
+             'initial count 0..2, in-order and out-of-order mode: tokens conserved at quiescence, a failed wait takes nothing, and in every stuck end state the blocked head waiter is not covered by the count (no lost wake-up); the same with a second, constructed sleeping waiter queued behind the running one and a signaller that may take a token itself (sem_2w_ghost_io).  '
+             'One-step check of the real signal() / try_resume from every queue state of <= 2 sleeping waiters (demands 1..4, count 0..3): exactly the waiters covered under the mode\'s rule are woken, once, every lock is released, and signal() never spins on a lock nobody can release.',
+        note='Known finding (not repaired, known_findings.json): in out-of-order mode signal() self-deadlocks when its scan finds a covered waiter (job signal_step_ooo).  Only 2 running threads fit the memory budget on Layer B (9-10 GB, 4-6 min each); three running threads ran out of memory at 32 GB.  signal() from a plain OS thread and '
              'destroy-after-wait need pre-emption inside the primitive: not covered.',
         technique='bounded-context-switch sequentialisation of the real code (ir2c --thread) + CBMC', design_ref='DESIGN.md §3 C02, §7.1'),
     'C03': dict(
@@ -69,7 +70,7 @@ CHECKS = {
         text='qrwlock (header-only, real lock/unlock/do_lock/try_wake/__trylock*/__unlock_*) with condition_variable and spinlock hand-over as contracts: 2 lockers in W/R, R/W and symbolic modes (3 symbolic lockers in thorough), '
              'timeouts never/finite, every holder yields inside: a writer is alone, readers never share with a writer, a failed lock leaves lock_state free at quiescence, and no locker without deadline is left blocked (deadlock check).  '
              'rwlock (mutex + cv real, on K) W/R scenario in addition.',
-        note='qrwlock\'s own protocol is real; cv / spinlock re-acquisition are the contracts of rt/ksync.h (their subject is C03).  Interrupts, try_lock and pre-emption between atomic steps on several vCPUs are outside.',
+        note='qrwlock\'s own protocol is real; cv / spinlock re-acquisition are the contracts of rt/ksync.h (their subject is C03).  rwlock (the mutex + cv based lock) is NOT decided: its harness exists (USE_RWLOCK, real mutex + cv on K) but the 2-locker formula (40 M variables) exhausts the SAT solver\'s memory (DESIGN 7.5).  A lost-wake-up change that needs 4 lockers is caught by the thorough job qrw_W_R_Wt_R only.  Interrupts, try_lock and pre-emption between atomic steps on several vCPUs are outside.',
         technique='bounded-context-switch sequentialisation of the real code (ir2c --thread) + CBMC', design_ref='DESIGN.md §3 C06, §7.1'),
     'C07': dict(
         text='MPMC, batch-MPMC and SPSC ring queues (capacity 2) as sequentialised threads that may be pre-empted before every atomic operation: 1 producer + 1 consumer, symbolic 64-bit start position (wrap-around included): '
@@ -106,6 +107,41 @@ CHECKS = {
         note='Requests starting at or after EOF are assumed away (outside the property).  malloc/posix_memalign/free and operator new are mapped to exact-size static pools; underlay and sub-files are well-behaved (no faults).  '
              'Vectored I/O on the composites (VirtualFile::piov_copy) and the const-iovec wrappers are outside.  Found and fixed (1a7642e): out-of-bounds intermediate pointer in AlignedFileAdaptor::pwrite (pointer-arithmetic-only finding).',
         technique=TECH, design_ref='DESIGN.md §3 C16'),
+    'C04': dict(
+        text='Sleep / timeout / interrupt on the real thread/thread.cpp scheduler core, sequential: (1) SleepQueue (the deadline heap): from every valid heap of n <= 6 distinct threads with symbolic 64-bit deadlines one real push / pop / pop_front / up / down '
+             'keeps the heap property, the idx back-pointers and the element multiset (inductive step over the representation invariant); (2) two consecutive blocking calls (thread_yield / thread_usleep with a symbolic timeout) of one thread while the rest of the '
+             'vCPU (another runnable thread, real thread_interrupt calls same- or cross-vCPU, one real resume_threads round, symbolic monotone clock) runs in between: usleep returns 0 only at or after its deadline, -1 with exactly the errno of an interrupt issued during '
+             'that sleep, an interrupt is consumed once and never leaks into a later call; (3) Timeout arithmetic at full 64-bit width (saturation, ordering); (4) one resume_threads() / idler() round from every valid vCPU state of 3 sleepers/standby/ready threads: '
+             'exactly the expired sleepers and the standby threads become runnable, once, with their reason preserved, queues stay consistent.',
+        note='switch_context (inline asm) and update_now are harness stand-ins (run the other side\'s script / any later clock value); operator new from a static pool; spin-waits cut (single OS thread).  Outside: histories longer than two blocking calls, more than one '
+             'other runnable thread, true concurrency of a cross-vCPU interrupt with resume_threads on the target vCPU, the machine context switch, the clock source, work stealing.  Found and fixed: thread_yield left the interrupt reason pending (0f5fe81), '
+             'Timeout::operator<= (ad23d59).  Known finding (not repaired, known_findings.json): an interrupt delivered to a READY thread before its first run fails its first later sleep.',
+        technique=TECH, design_ref='DESIGN.md §3 C04, §7.3'),
+    'C10': dict(
+        text='Socket I/O loops of the real net/basic_socket.cpp (doio_once / doio_n via read/write/send/recv/readv/writev/sendmsg/recvmsg and their _n forms, BufStep / BufStepV over the real iovector code) and net/kernel_socket.cpp KernelSocketStream::read/write/readv/writev/recv/send '
+             'over a stub kernel socket whose every call moves a symbolic prefix, fails with EINTR / EAGAIN (bounded) or a hard errno, with EOF at a symbolic offset: peer-side bytes are exactly a prefix of the written stream in order and exactly once, reader buffers equal the '
+             'consumed prefix and nothing beyond is touched, full-count semantics of the _n forms unless EOF / error, single-shot calls return 1..count, -1 exactly on a hard failure with errno preserved (ETIMEDOUT for a timed-out wait), a wait happens only after EAGAIN, in the right '
+             'direction on the right fd with the deadline fixed at the start of the call, no syscall after a failure.  Plus one inductive step of the real io/epoll.cpp engine bookkeeping (2 fds x {read, write}): wait_and_fire_events wakes exactly the waiters whose direction was '
+             'reported, once, leaves every other waiter registered and armed; wait_for_fd removes its own interest on every exit and refuses a second waiter on the same (fd, direction).',
+        note='Bounds: flat buffers 0..6 bytes, <= 2-3 iovecs of 0..2 bytes, <= 1 EINTR + 1 EAGAIN per call (quick; 9 bytes / 2+2 retries thorough), two consecutive calls.  The kernel socket, the master engine\'s wait_for_fd, epoll_ctl/epoll_wait, thread_usleep/interrupt are '
+             'contract stubs (rt/sockstub.c, harness/C10/h_epoll.cpp).  Outside: real kernel buffers and two live endpoints, io_uring / epoll-ng / select engines, TLS and Unix-domain specifics, sendfile, concurrent connections as real photon threads (the engine step is a one-step check over an invariant).',
+        technique=TECH, design_ref='DESIGN.md §3 C10'),
+    'C11': dict(
+        text='RPC out-of-order engine (real rpc/out-of-order-execution.cpp: issue_operation / wait_completion / issue_wait, phaselock, leader loop) with mutex / condition_variable / thread_interrupt as contracts and the three callbacks '
+             '(issue, header read = do_completion, body read = do_collect) as harness code with blocking points: 2 concurrent callers on one vCPU, the wire delivers 1 response (quick; 2 in thorough) for either caller or an unknown tag in any order and then fails, '
+             'per-call deadline never / finite expiring at any blocking point (between header and body included): a successful call holds exactly the payload produced for its own tag, do_collect is only entered for a call that has not returned, the call being collected '
+             'does not return while the reader is inside its buffer, every call is unregistered at quiescence.',
+        note='Found and fixed (6be8dac): a follower whose deadline expired while the reader was already collecting its response returned ETIMEDOUT at once and the reader went on writing into the dead stack frame (confirmed on the live runtime, harness/C11/native_follower_timeout.cpp).  '
+             'std::unordered_map<tag, ctx*> is a 2-slot array stand-in with the same find / insert / erase contract; the Callback delegate is specialised so callbacks are direct calls; StubImpl / Skeleton framing, real sockets, more than 2 callers, duplicate tags and user-supplied tags are outside.',
+        technique='bounded-context-switch sequentialisation of the real code (ir2c --thread) + CBMC, sync primitives as contracts', design_ref='DESIGN.md §3 C11, §7.3'),
+    'C17': dict(
+        text='Single-reader data path of the cache layer on the real fs/cache/store.cpp (ICacheStore::preadv2 / try_refill_range / do_refill_range / prefetch / tryget_size, RangeLock, iovector code) over a symbolic source file (1..8 bytes quick / 12 thorough, page = refill unit = 4), a media model '
+             '(byte array + present bitmap, initially any subset of pages cached with media == source, or size not yet known) and symbolic faults (short / failed source reads, media reads and writes, failed hole query, allocator, fstat): the count is min(len, size - offset) without faults and never more, '
+             'every delivered byte equals the source byte, nothing beyond the count or outside the caller\'s segments is written, source and media accesses stay inside [0, size), only source bytes are written to media at their own offsets, a fault-free read leaves its range cached and never drops cached pages, '
+             'no range stays locked; plus hole-query lemmas for the real RangeModule (hit = fully covered, miss = aligned non-empty hull of the uncovered bytes).',
+        note='The property statement is wider than this check: concurrent readers / refills, the refill thread pool, eviction while open, directory re-use, FileCacheStore / FileCachePool / CachedFs over real file systems (fiemap, fallocate), write-back modes are NOT encoded (listed in the evidence).  '
+             'The store is a harness subclass of ICacheStore (hole query over the bitmap or the real RangeModule); mutex / cv are sequential no-ops; IOVectorEntity<4,0> instead of <32,4> (shipped size in a thorough job).',
+        technique=TECH, design_ref='DESIGN.md §3 C17'),
 }
 
 _PENDING = 'check under construction in this session (see DESIGN.md §3 for the plan); not claimed until its harness passes on the unchanged tree'
